@@ -33,6 +33,7 @@ type adversary struct {
 	fz     *fuzzer
 	seen   map[hotstuff.View]*hotstuff.Block // proposals of honest leaders seen by a Byzantine replica, by view
 	ll     *lockless
+	fs     *fhsStale
 	fh     *fhsHide
 	ff     *forgeFork
 }
@@ -67,6 +68,25 @@ type fhsHide struct {
 	blk        map[string]*hotstuff.Block
 }
 
+// fhsStale is a directed attack on Fast-HotStuff with aggregate QCs ("a vote without the certificate"): the Byzantine
+// replica Z leads every view, sends only genuine certificates, and the scheduler delays what one replica sends
+// during two views. One block fetch of R times out.
+//
+//	view 1  Z proposes G to H1 and H2; they vote. The view ends by timeout (K1); R has never seen G
+//	view 2  Z proposes P (certificate for G) to R and H1. R's first fetch of G times out, its second one succeeds: R votes.
+//	        H1's messages to R and H2 are delayed from here on. Z sends its own timeouts (genesis certificate)
+//	view 3  H1 gets B3 (certificate for P) and commits G.
+//	        R and H2 get X3 on top of genesis with the aggregate of the view-2 timeouts of R, H2 and Z, then X4, X5
+//
+// If R voted for P without raising its high QC to the certificate for G, its timeout of view 2 reports genesis, the
+// aggregate is valid, and R and H2 commit X3 beside G.
+type fhsStale struct {
+	z, r, h1, h2 hotstuff.ID
+	phase        int
+	blk          map[string]*hotstuff.Block
+	sentTO       map[hotstuff.View]bool
+}
+
 // lockless is a directed attack on the lock ("vote without being able to lock"): the Byzantine replica Z leads every
 // view but the second, and the scheduler (which is the adversary's) takes down the victim's links at two moments.
 //
@@ -99,6 +119,14 @@ func newAdversary(w *World) *adversary {
 			}
 			a.ll = ll
 			w.after(time.Millisecond, "lockless", func() { a.locklessStep() })
+		}
+		if b.Kind == "script" && has(b.Acts, "fhsstale") && w.plan.N == 4 && a.fs == nil {
+			fs := &fhsStale{z: hotstuff.ID(b.ID), blk: map[string]*hotstuff.Block{}, sentTO: map[hotstuff.View]bool{}}
+			fs.r, fs.h1, fs.h2 = hotstuff.ID(w.plan.knob("fsR", 0)), hotstuff.ID(w.plan.knob("fsH1", 0)), hotstuff.ID(w.plan.knob("fsH2", 0))
+			if fs.r != 0 && fs.h1 != 0 && fs.h2 != 0 {
+				a.fs = fs
+				w.after(time.Millisecond, "fhsstale", func() { a.fhsStaleStep() })
+			}
 		}
 		if b.Kind == "script" && has(b.Acts, "forgefork") && a.ff == nil && w.plan.knob("ffA", 0) != 0 && w.plan.knob("ffB", 0) != 0 {
 			a.ff = &forgeFork{z: hotstuff.ID(b.ID), a: hotstuff.ID(w.plan.knob("ffA", 0)), b: hotstuff.ID(w.plan.knob("ffB", 0)), kind: w.plan.knob("ffKind", 0)}
@@ -541,6 +569,133 @@ func (a *adversary) fhsHideStep() {
 	case 6:
 		w.probe("attack:fhshide-completed")
 		fh.phase = 7
+	}
+}
+
+func (a *adversary) fhsStaleStep() {
+	w, fs := a.w, a.fs
+	if w.ended || w.viol != nil || fs.phase > 8 {
+		return
+	}
+	defer w.after(500*time.Microsecond, "fhsstale", func() { a.fhsStaleStep() })
+	nd := w.primary(int(fs.z))
+	if nd == nil || nd.crashed {
+		return
+	}
+	viewOf := func(id hotstuff.ID) hotstuff.View {
+		if x := w.primary(int(id)); x != nil {
+			return x.states.View()
+		}
+		return 0
+	}
+	in := func(v hotstuff.View, ids ...hotstuff.ID) bool {
+		for _, id := range ids {
+			if viewOf(id) < v {
+				return false
+			}
+		}
+		return true
+	}
+	mk := func(name string, parent *hotstuff.Block, qc hotstuff.QuorumCert, view hotstuff.View) *hotstuff.Block {
+		a.ctr++
+		batch := &clientpb.Batch{Commands: []*clientpb.Command{{ClientID: 7500, SequenceNumber: a.ctr, Data: []byte(name)}}}
+		b := hotstuff.NewBlock(parent.Hash(), qc, batch, view, fs.z)
+		w.reg.add(b, nd)
+		fs.blk[name] = b
+		return b
+	}
+	propose := func(b *hotstuff.Block, agg *hotstuff.AggregateQC, to ...hotstuff.ID) {
+		for _, id := range to {
+			a.sendTo(nd, id, "propose", hotstuff.ProposeMsg{ID: fs.z, Block: b, AggregateQC: agg})
+		}
+	}
+	g := hotstuff.GetGenesis()
+	gqc := hotstuff.NewQuorumCert(nil, 0, g.Hash())
+	ownTimeout := func(v hotstuff.View) (hotstuff.TimeoutMsg, bool) {
+		m := hotstuff.TimeoutMsg{ID: fs.z, View: v, SyncInfo: hotstuff.NewSyncInfoWith(gqc), ViewSignature: a.ownSig(nd, v.ToBytes())}
+		m.MsgSignature = a.ownSig(nd, m.ToBytes())
+		return m, m.ViewSignature != nil && m.MsgSignature != nil
+	}
+	// Z's own (genuine) timeouts for the views in which H1 is not heard: R and H2 need a third one
+	for v := hotstuff.View(2); v <= 5; v++ {
+		if fs.phase >= 2 && !fs.sentTO[v] && in(v, fs.r, fs.h2) {
+			if m, ok := ownTimeout(v); ok {
+				for _, id := range []hotstuff.ID{fs.r, fs.h2, fs.h1} {
+					a.sendTo(nd, id, "timeout", m)
+				}
+				fs.sentTO[v] = true
+			}
+		}
+	}
+	next := func(prevName, name string, view hotstuff.View, to ...hotstuff.ID) bool {
+		if !in(view, to...) {
+			return false
+		}
+		qc, ok := a.certify(nd, fs.blk[prevName])
+		if !ok {
+			return false
+		}
+		propose(mk(name, fs.blk[prevName], qc, view), nil, to...)
+		return true
+	}
+	switch fs.phase {
+	case 0:
+		propose(mk("G", g, gqc, 1), nil, fs.h1, fs.h2)
+		fs.phase = 1
+		a.fired("fhsstale")
+	case 1:
+		if next("G", "P", 2, fs.r, fs.h1) {
+			// from now on H1 is not heard by R and H2
+			until := time.Duration(1 << 60)
+			w.net.linkDown[[2]int{int(fs.h1), int(fs.r)}] = until
+			w.net.linkDown[[2]int{int(fs.h1), int(fs.h2)}] = until
+			w.fault("attack:h1-not-heard")
+			fs.phase = 2
+		}
+	case 2:
+		if next("P", "B3", 3, fs.h1) {
+			fs.phase = 3
+		}
+	case 3:
+		// the aggregate of the view-2 timeouts of R, H2 and Z
+		if !in(3, fs.r, fs.h2) {
+			return
+		}
+		var tos []hotstuff.TimeoutMsg
+		got := map[hotstuff.ID]bool{}
+		for _, t := range a.touts {
+			if t.View == 2 && (t.ID == fs.r || t.ID == fs.h2) && !got[t.ID] && t.MsgSignature != nil {
+				got[t.ID] = true
+				tos = append(tos, t)
+			}
+		}
+		own, ok := ownTimeout(2)
+		if len(tos) != 2 || !ok {
+			return
+		}
+		tos = append(tos, own)
+		for _, t := range tos {
+			if qc, ok := t.SyncInfo.QC(); ok && qc.View() > 0 {
+				w.probe("attack:fhsstale-timeout-reports-the-certificate")
+			}
+		}
+		agg, err := nd.auth.CreateAggregateQC(2, tos)
+		if err != nil {
+			return
+		}
+		propose(mk("X3", g, gqc, 3), &agg, fs.r, fs.h2)
+		fs.phase = 4
+	case 4:
+		if next("X3", "X4", 4, fs.r, fs.h2) {
+			fs.phase = 5
+		}
+	case 5:
+		if next("X4", "X5", 5, fs.r, fs.h2) {
+			fs.phase = 6
+		}
+	case 6:
+		w.probe("attack:fhsstale-completed")
+		fs.phase = 9
 	}
 }
 
